@@ -12,9 +12,16 @@ import (
 	"golang.org/x/tools/go/packages"
 )
 
+// value-string bounds (bytes); the thorough tier raises them
+var (
+	VerifC15PackageMax = 6
+	VerifC15FileMax    = 7
+	VerifC15NameMax    = 8
+)
+
 // VerifHarness_C15_OutputPackage: `output:package [PATH][:NAME]` splits at the first colon.
 func VerifHarness_C15_OutputPackage() {
-	val := nondetString("value", 6)
+	val := nondetString("value", VerifC15PackageMax)
 	for i := 0; i < len(val); i++ {
 		verifAssume(!verifSpace(val[i]))
 	}
@@ -42,7 +49,7 @@ func VerifHarness_C15_OutputPackage() {
 
 // VerifHarness_C15_OutputFile: `output:file` keeps the value unless it starts with @cwd/.
 func VerifHarness_C15_OutputFile() {
-	val := nondetString("value", 7)
+	val := nondetString("value", VerifC15FileMax)
 	for i := 0; i < len(val); i++ {
 		verifAssume(!verifSpace(val[i]))
 	}
@@ -105,7 +112,7 @@ func filepathIsAbs(p string) bool { return filepath.IsAbs(p) }
 // VerifHarness_C15_DefaultOutputFile: a variables block in <dir>/<stem><ext> lands in <stem>.gen<ext>, where
 // <ext> is the final extension only; an interface converter defaults to ./generated/generated.go.
 func VerifHarness_C15_DefaultOutputFile() {
-	file := nondetString("file", 8)
+	file := nondetString("file", VerifC15NameMax)
 	verifAssume(len(file) >= 1)
 	for i := 0; i < len(file); i++ {
 		verifAssume(file[i] != '/' && file[i] != 0)
